@@ -72,7 +72,7 @@ var fragFlagNames = []string{"root-shape", "supported", "supported2", "dense-slo
 	"groups-are-map-keys", "groups-are-slots", "read-groups-have-slots", "has-quick-program", "has-balancing", "groups-are-slots(dense)"}
 
 func legFrag(c *Ctx) {
-	c.Rule("every pattern of the c01-writer corpus (same random stream: full generator syntax + sparse/named numbering + harvested test patterns), parsed and written by regexp2; the exported post-rewrite tree with the writer's real slot map is given to the model, which evaluates the decidable hypotheses of C01_compile_correct_exec_partial (thm1: supported, dense), C01_compile_correct2_exec_partial (thm2: + balancing), C01_compile_correct_capmap_exec_partial (thm3: any slot map), C01_compile_correct_write_quick_exec_partial (thm4: the quick program), and on a sample of (program, input, start 0) the path monitor (hypothesis path_ok of C01_exec_total_partial / C13_dichotomy_for_supported_partial); non-trivial = program longer than 8 words (distinct by pattern,options)")
+	c.Rule("every pattern of the c01-writer corpus (same random stream: full generator syntax + sparse/named numbering + harvested test patterns), parsed and written by regexp2; the exported post-rewrite tree with the writer's real slot map is given to the model, which evaluates the decidable hypotheses of C01_compile_correct_exec_partial (thm1: supported, dense), C01_compile_correct2_exec_partial (thm2: + balancing), C01_compile_correct_capmap_exec_partial (thm3: any slot map), C01_compile_correct_write_quick_exec_partial (thm4: the quick program), the static frame-shape verifier tyck_auto of Proofs/CompileCfSafe.v on the full and the quick program (hypothesis of C13_limit_dichotomy_typed / C01_exec_total_typed), and on a sample of (program, input, start 0) the path monitor (hypothesis path_ok of C01_exec_total_partial / C13_dichotomy_for_supported_partial); non-trivial = program longer than 8 words (distinct by pattern,options)")
 	pats := writerCorpus(c)
 	type item struct {
 		desc string
@@ -82,6 +82,7 @@ func legFrag(c *Ctx) {
 	var legs []int
 	var ins [][]int64
 	var items []item
+	var tyLegs []int
 	var monLegs []int
 	var monIns [][]int64
 	var monDesc []string
@@ -101,6 +102,7 @@ func legFrag(c *Ctx) {
 		in := encWriteCase(tree, tw)
 		legs = append(legs, 104)
 		ins = append(ins, in)
+		tyLegs = append(tyLegs, 106)
 		items = append(items, item{fmt.Sprintf("frag: pattern %q opts=%s (%d code words)", pp.p, pp.o, len(code.Codes)), pp.p + "|" + pp.o.String(), len(code.Codes) > 8})
 		if len(monIns) < monBudget && len(code.Codes) < 400 {
 			alpha := pp.alpha
@@ -193,6 +195,37 @@ func legFrag(c *Ctx) {
 	c.Gate("some real program satisfies the hypotheses of C01_compile_correct_exec_partial", in1 > 0)
 	c.Gate("some real program satisfies the hypotheses of C01_compile_correct_capmap_exec_partial", in3 > 0)
 	c.Gate("some real quick program satisfies the hypotheses of C01_compile_correct_write_quick_exec_partial", in4 > 0)
+
+	// the static frame-shape verifier (Proofs/CompileCfSafe.v: tyck_auto), on the full and on the quick program
+	touts, err := runModel(c.ModelBin, tyLegs, ins)
+	if err != nil {
+		c.violate(Violation{Leg: c.Leg, Kind: "obligation", Desc: "model execution failed (verifier)", Detail: err.Error(), NoInput: true}, "")
+		return
+	}
+	tyOK, tyAll, tyqOK, tyqAll := 0, 0, 0, 0
+	for i, o := range touts {
+		c.res.ModelEvals++
+		if len(o) != 3 {
+			continue
+		}
+		tyAll++
+		if o[0] == 1 {
+			tyOK++
+		} else {
+			c.Add(&Case{Desc: items[i].desc + " -> full program REJECTED by the static verifier", Class: "verifier: full program rejected"})
+		}
+		if o[1] == 1 {
+			tyqAll++
+			if o[2] == 1 {
+				tyqOK++
+			} else {
+				c.Add(&Case{Desc: items[i].desc + " -> quick program REJECTED by the static verifier", Class: "verifier: quick program rejected"})
+			}
+		}
+	}
+	c.res.Histogram[fmt.Sprintf("fraction of full programs accepted by the static verifier (tyck_auto) = %s", pct(tyOK, tyAll))] = tyOK
+	c.res.Histogram[fmt.Sprintf("fraction of quick programs accepted by the static verifier (tyck_auto) = %s", pct(tyqOK, tyqAll))] = tyqOK
+	c.Gate("the static verifier accepts some real program", tyOK > 0)
 
 	// the path monitor
 	mouts, err := runModel(c.ModelBin, monLegs, monIns)
